@@ -98,3 +98,165 @@ type hs13DbgFactory struct{ side string }
 func (f hs13DbgFactory) NewLogger(scope string) logging.LeveledLogger {
 	return &hs13DbgLogger{scope: f.side + "/" + scope}
 }
+
+// ---------------------------------------------------------------- fault masks (C02 leg)
+
+var hs13Acts = []string{"pass", "drop", "dup", "hold:1", "hold:3"} //nolint:gochecknoglobals
+
+func hs13Single(i int, a string) []string {
+	m := make([]string, i+1)
+	for j := range m {
+		m[j] = "pass"
+	}
+	m[i] = a
+
+	return m
+}
+
+type hs13Job struct {
+	v    c02Variant
+	mask []string
+	opt  hs13Opt
+}
+
+func hs13Only(jobs []hs13Job) []hs13Job {
+	only := os.Getenv("VERIF_HS13_ONLY") // "variant" or "variant|mask,mask"
+	if only == "" {
+		return jobs
+	}
+	parts := strings.SplitN(only, "|", 2)
+	var out []hs13Job
+	for _, j := range jobs {
+		if j.v.Name != parts[0] {
+			continue
+		}
+		if len(parts) > 1 && strings.Join(j.mask, ",") != parts[1] {
+			continue
+		}
+		out = append(out, j)
+	}
+
+	return out
+}
+
+func hs13RunJobs(t *testing.T, jobs []hs13Job, kind string) {
+	out := newVOut(t)
+	for _, j := range hs13Only(jobs) {
+		j := j
+		var res hs13Case
+		vBubble(t, func(t *testing.T) { res = runHs13(t, j.v, j.mask, j.opt) })
+		res.Kind = kind
+		out.emit(res)
+	}
+}
+
+// TestVerifHs13Masks: every variant fault-free and under every single fault over the first
+// datagrams; every small mask on the base variants; seeded random longer masks.
+func TestVerifHs13Masks(t *testing.T) {
+	rng := newVRand(vSeed() ^ 0x4513)
+	variants := hs13Variants()
+	var jobs []hs13Job
+	opt := hs13Opt{Limit: 200 * time.Second}
+	nSingle := 14
+	for _, v := range variants {
+		jobs = append(jobs, hs13Job{v, nil, opt})
+		for i := 0; i < nSingle; i++ {
+			for _, a := range hs13Acts[1:] {
+				jobs = append(jobs, hs13Job{v, hs13Single(i, a), opt})
+			}
+		}
+	}
+	n := 3
+	if vIsThorough() {
+		n = 5
+	}
+	for _, v := range variants[:2] {
+		total := 1
+		for i := 0; i < n; i++ {
+			total *= len(hs13Acts)
+		}
+		for code := 0; code < total; code++ {
+			m := make([]string, n)
+			c := code
+			for i := range m {
+				m[i] = hs13Acts[c%len(hs13Acts)]
+				c /= len(hs13Acts)
+			}
+			jobs = append(jobs, hs13Job{v, m, opt})
+		}
+	}
+	nr := 60
+	if vIsThorough() {
+		nr = 3000
+	}
+	for i := 0; i < nr; i++ {
+		v := variants[rng.intn(len(variants))]
+		l := 4 + rng.intn(16)
+		m := make([]string, l)
+		for j := range m {
+			if rng.chance(65) {
+				m[j] = "pass"
+			} else {
+				m[j] = hs13Acts[1+rng.intn(len(hs13Acts)-1)]
+			}
+		}
+		jobs = append(jobs, hs13Job{v, m, opt})
+	}
+	hs13RunJobs(t, jobs, "hs13-masks")
+}
+
+// TestVerifHs13Timed (C17 leg): initial interval 10 ms / 1 s / 40 s, backoff on and off; every
+// datagram towards one side or both dropped from datagram #k on until a virtual deadline (the
+// silent side's peer keeps retransmitting on its timer: interval law up to the 60 s cap; the side
+// that still receives sees nothing but stale flights: emission bound), then reliable.
+func TestVerifHs13Timed(t *testing.T) {
+	rng := newVRand(vSeed() ^ 0x451317)
+	variants := hs13Variants()
+	var jobs []hs13Job
+	type tim struct {
+		iv time.Duration
+		nb bool
+	}
+	tims := []tim{{0, false}, {10 * time.Millisecond, false}, {40 * time.Second, false}, {0, true}, {250 * time.Millisecond, true}}
+	sils := []time.Duration{3500 * time.Millisecond, 70 * time.Second, 300 * time.Second}
+	froms := []int{0, 2, 3, 5, 7, 8}
+	for _, tm := range tims {
+		for _, to := range []string{"client", "server", "both"} {
+			for _, from := range froms {
+				sil := sils[rng.intn(len(sils))]
+				if from == 0 {
+					sil = 300 * time.Second
+				}
+				for vi, v := range variants {
+					if !vIsThorough() && vi >= 2 && (from+vi+len(to))%3 != 0 {
+						continue
+					}
+					jobs = append(jobs, hs13Job{v, nil, hs13Opt{
+						Interval: tm.iv, NoBackoff: tm.nb, SilenceFrom: from, SilenceUntil: sil, SilenceTo: to,
+						Limit: sil + 400*time.Second,
+					}})
+				}
+			}
+		}
+	}
+	// fault masks under the non-default timer configurations
+	nr := 40
+	if vIsThorough() {
+		nr = 1500
+	}
+	for i := 0; i < nr; i++ {
+		v := variants[rng.intn(len(variants))]
+		tm := tims[1+rng.intn(len(tims)-1)]
+		l := 3 + rng.intn(12)
+		m := make([]string, l)
+		for j := range m {
+			if rng.chance(60) {
+				m[j] = "pass"
+			} else {
+				m[j] = hs13Acts[1+rng.intn(len(hs13Acts)-1)]
+			}
+		}
+		jobs = append(jobs, hs13Job{v, m, hs13Opt{Interval: tm.iv, NoBackoff: tm.nb, Limit: 600 * time.Second}})
+	}
+	hs13RunJobs(t, jobs, "hs13-timed")
+}
